@@ -327,6 +327,7 @@ void h_rg_collect_seq(void)
     ASSUME(g_collect >= 1);              /* ghost: one of the held work units belongs to the unfinished block (no task runs for it) */
   }
   unfinished_work = uw;
+  ASSUME(g_iblk == 0);                   /* the collector token is free: no collect task is running, none holds an input piece */
   ASSUME(size(coll_q) >= 1);             /* (the end-of-input flush with an empty queue is the eof branch below) */
   ASSUME(can_collect_seq());
   WITNESS("collect_seq_enabled");
